@@ -1,4 +1,5 @@
 import BHS.Props.C15
+import BHS.Props.SqlShape
 open BHS.Props.C15
 #print axioms C15_add_is_exclusive
 #print axioms C15_add_callers
@@ -14,3 +15,4 @@ open BHS.Props.C15
 #print axioms C15_reader_view_exclusive
 #print axioms C15_unlocked_counterexample
 #print axioms C15_duplicate_race_counterexample
+#print axioms BHS.Props.SqlShape.add_statements
